@@ -1,1 +1,445 @@
-/-! Property theorems for C18 (stub: not built yet). -/
+import UsualProofs.C18.Scan
+import UsualProofs.C18.NumP
+import UsualProofs.C18.ConfigP
+/-!
+# C18 — Config parser delivers exactly the documented events and typed values
+
+Models (`Usual.C18`): `CfParser` = `parse_ini_file_internal` on a mutable buffer (`loop`,
+`stepAt`, `scanFile`, `parseIni`; every load/store bounds-checked, NUL patches and their
+restoration explicit); `Spec` = the line grammar as an independent tokenizer (`lineItems`,
+`runLines`, `specFile`); `Config` = `cf_set/cf_get/find_sect/find_key/get_dest/fill_defaults/
+load_handler/cf_load_file` over an abstract schema; `Num` = strtol/strtoul base 0, `%d`/`%u`,
+binary64 rounding, and the *modelled libc* `strtodC`/`fmtG` (parameters `Env` of every theorem).
+The code modelled is the tree with repair F24 (`cf_set_time_usec` rounds and range-checks).
+-/
+namespace UsualProps.C18
+open Usual.C18 UsualProofs.C18
+
+variable {σ δ : Type}
+
+/-! ## concrete objects used by the non-vacuity examples -/
+
+/-- `a` = "[s]\n k = v \n%include b\nz=\n", `b` = "[t] q=1" (no final newline) -/
+def exFs (n : Bytes) : Option Bytes :=
+  if n == [97] then some [91, 115, 93, 10, 32, 107, 32, 61, 32, 118, 32, 10, 37, 105, 110, 99, 108, 117,
+    100, 101, 32, 98, 10, 122, 61, 10]
+  else if n == [98] then some [91, 116, 93, 32, 113, 61, 49]
+  else none
+
+/-- file `[i]` is "%include [i+1]\n" for `i < n`, file `[n]` is "k=v": a chain of `n` nested includes -/
+def chainFs (n : Nat) (name : Bytes) : Option Bytes :=
+  match name with
+  | [c] =>
+    if c.toNat < n then some ([37, 105, 110, 99, 108, 117, 100, 101, 32, c + 1, 10])
+    else if c.toNat == n then some [107, 61, 118] else none
+  | _ => none
+
+def exEnv : Env := { strtod := strtodC, fmtG := fmtG, home := none, pwUid := none, pwNam := fun _ => none }
+
+def exLk : List (Bytes × Int) := [([111, 110, 101], 1), ([116, 119, 111], 2)]   -- one, two
+
+/-- section `main`: i (int, default "5"), ro (read-only), nr (no-reload), l (lookup), r (relative);
+    section `two`: s (string) -/
+def exCf (loaded : Bool) (base : Option Nat) : Cf Unit :=
+  { sects := [
+      { name := [109, 97, 105, 110],
+        keys := [
+          { name := [105], setter := some .int, getter := some .int, ofs := 0, dflt := some [53] },
+          { name := [114, 111], setter := some .int, getter := some .int, ofs := 1, readOnly := true },
+          { name := [110, 114], setter := some .int, getter := some .int, ofs := 2, noReload := true },
+          { name := [108], setter := some (.lookup exLk), getter := some (.lookup exLk), ofs := 3 },
+          { name := [114], setter := some .uint, getter := some .uint, ofs := 4, rel := true } ] },
+      { name := [116, 119, 111],
+        keys := [{ name := [115], setter := some .str, getter := some .str, ofs := 10 }] } ],
+    base := base, loaded := loaded }
+
+def exSt : Store Unit := { user := () }
+
+/-! ## the parser -/
+
+/-- **buffer intact.**  A round of the loop that continues hands the *same* buffer to the next
+    round (every NUL patch has been undone), and its offset again points at NUL-free text
+    followed by the terminating NUL. -/
+theorem buffer_intact_for_later_lines (incl : Bytes → σ → σ × Option Err) (h : σ → Event → σ × Bool)
+    (level : Nat) (buf : Bytes) (p : Nat) (s : Bytes) (st : σ) (hv : View buf p s)
+    (b' : Bytes) (p' : Nat) (st' : σ) (hstep : stepAt incl h level buf p st = .next b' p' st') :
+    b' = buf ∧ ∃ s', View buf p' s' := by
+  have := stepAt_view incl h level st hv
+  rw [hstep] at this
+  cases hr : refStep incl h level s st with
+  | next s' st'' =>
+    rw [hr] at this
+    obtain ⟨q, he, hv'⟩ := this
+    cases he
+    exact ⟨rfl, s', hv'⟩
+  | done st'' => rw [hr] at this; cases this
+  | fail st'' e f => rw [hr] at this; cases this
+
+example : ∃ b' p' st', stepAt (fun _ (s : List Event) => (s, none)) (logHandler 0) 0
+      (loadBuf [107, 61, 118, 10, 120]) 0 [] = .next b' p' st' ∧ b' = loadBuf [107, 61, 118, 10, 120] :=
+  ⟨_, _, _, by decide +kernel, rfl⟩
+
+/-- **buffer restored.**  When the scan of a loaded file succeeds, the buffer that is freed is
+    byte for byte what `load_file` returned. -/
+theorem buffer_restored (incl : Bytes → σ → σ × Option Err) (h : σ → Event → σ × Bool) (level : Nat)
+    (content : Bytes) (st : σ) :
+    let o := loop incl h level ((loadBuf content).length + 1) (loadBuf content) 0 st
+    o.err = none → o.buf = loadBuf content :=
+  (loop_loadBuf incl h level content st).2
+
+example : (loop (fun _ (s : List Event) => (s, none)) (logHandler 0) 0 100
+    (loadBuf [91, 115, 93, 10, 107, 61, 118, 32, 10]) 0 []).err = none := by decide +kernel
+
+/-- **no access outside the loaded text.**  Every load and store of the model is checked
+    against the allocation `load_file` made (text + one NUL); a violation would surface as
+    `Err.oob`.  It never does, and the loop/recursion fuel never runs out (`Err.fuel`). -/
+theorem reads_in_text (fs : Bytes → Option Bytes) (h : σ → Event → σ × Bool) (name : Bytes) (st : σ) :
+    let r := parseIni fs h name st
+    r.2.1 ≠ some .oob ∧ r.2.1 ≠ some .fuel ∧ r.2.2 ≠ some .oob ∧ r.2.2 ≠ some .fuel := by
+  unfold parseIni
+  rw [scanFile_eq_spec]
+  exact specFile_real fs h (MAX_INCLUDE + 2) name 0 st (by unfold MAX_INCLUDE; omega) (by omega)
+
+example : (parseIni exFs (logHandler 0) [97] []).2.1 = none := by decide +kernel
+
+/-- **events = line grammar.**  For every file system, handler and content (also with NUL
+    bytes: the text ends at the first one), `parse_ini_file` delivers exactly what the line
+    tokenizer `specParse` says, with the same result and the same first error. -/
+theorem scan_eq_line_grammar (fs : Bytes → Option Bytes) (h : σ → Event → σ × Bool) (name : Bytes)
+    (st : σ) : parseIni fs h name st = specParse fs h name st := by
+  unfold parseIni specParse
+  exact scanFile_eq_spec fs h _ name 0 st
+
+/-- the same for the event list a handler that accepts everything receives -/
+theorem scan_events_eq_line_grammar (fs : Bytes → Option Bytes) (name : Bytes) :
+    scan fs name = specScan fs name := by
+  unfold scan specScan
+  rw [scan_eq_line_grammar]
+
+example : parseIni exFs (logHandler 0) [97] [] =
+    ([.sect [115], .kv [107] [118], .sect [116], .kv [113] [49], .kv [122] []], none, none) := by
+  decide +kernel
+
+/-- **include depth**: an `%include` in a file that is itself `MAX_INCLUDE` (10) levels below the
+    top file is an error (and nothing of it is delivered); at a smaller level the included file
+    is expanded in place, one level deeper. -/
+theorem include_depth (incl : Bytes → σ → σ × Option Err) (h : σ → Event → σ × Bool) (level : Nat)
+    (f : Bytes) (rest : List Item) (st : σ) :
+    (level ≥ MAX_INCLUDE → runItems incl h level (.incl f :: rest) st = (st, some .depth, some .depth)) ∧
+    (level < MAX_INCLUDE → runItems incl h level (.incl f :: rest) st =
+      match incl f st with
+      | (st', some e) => (st', some .incl, some e)
+      | (st', none) => runItems incl h level rest st') := by
+  constructor
+  · intro hl; simp [runItems, hl]
+  · intro hl
+    have : ¬ level ≥ MAX_INCLUDE := by omega
+    simp [runItems, this]
+
+/-- ten nested includes are accepted, eleven are not -/
+theorem include_depth_limit :
+    parseIni (chainFs 10) (logHandler 0) [0] [] = ([.kv [107] [118]], none, none) ∧
+    parseIni (chainFs 11) (logHandler 0) [0] [] = ([], some .incl, some .depth) := by
+  decide +kernel
+
+example : MAX_INCLUDE = 10 := rfl
+
+/-! ## typed values -/
+
+/-- **round trip, int (and bool = int)**: what `cf_get_int` prints for any `int` is read back by
+    `cf_set_int` as the same value, through `cf_set`/`cf_get` on any reachable writable key. -/
+theorem set_get_roundtrip_int (env : Env) (cf : Cf δ) (st : Store δ) {sect key : Bytes} {s : Sect δ}
+    {k : Key} {i : Nat} (hr : Reaches cf sect key s k i) (hs : k.setter = some .int)
+    (hg : k.getter = some .int) (hro : k.readOnly = false) (hnr : (k.noReload && cf.loaded) = false)
+    {loc : Loc} (hd : getDest (sectBase cf s sect) k = some loc)
+    (v : Int) (h1 : -2147483648 ≤ v) (h2 : v ≤ 2147483647) :
+    (cfSet env cf st sect key (renderInt v)).2 = true ∧
+    cfGet env cf (cfSet env cf st sect key (renderInt v)).1 sect key = some (renderInt v) := by
+  have hv : applySetter env .int (renderInt v) = some (.int v) := by
+    simp [applySetter, setInt_render v h1 h2]
+  have := set_then_get env cf st hr hs hg hro hnr hd hv
+  simpa [applyGetter, asInt] using this
+
+example : cfGet exEnv (exCf false none) (cfSet exEnv (exCf false none) exSt [109, 97, 105, 110] [105]
+    (renderInt (-2147483648))).1 [109, 97, 105, 110] [105] = some (renderInt (-2147483648)) := by
+  decide +kernel
+
+/-- the two canonical bool spellings (CF_BOOL is `cf_set_int`/`cf_get_int`) -/
+theorem set_get_roundtrip_bool :
+    setInt [48] = some 0 ∧ setInt [49] = some 1 ∧ renderInt 0 = [48] ∧ renderInt 1 = [49] := by
+  decide
+
+/-- **round trip, uint** -/
+theorem set_get_roundtrip_uint (env : Env) (cf : Cf δ) (st : Store δ) {sect key : Bytes} {s : Sect δ}
+    {k : Key} {i : Nat} (hr : Reaches cf sect key s k i) (hs : k.setter = some .uint)
+    (hg : k.getter = some .uint) (hro : k.readOnly = false) (hnr : (k.noReload && cf.loaded) = false)
+    {loc : Loc} (hd : getDest (sectBase cf s sect) k = some loc) (n : Nat) (h : n < 4294967296) :
+    (cfSet env cf st sect key (renderNat n)).2 = true ∧
+    cfGet env cf (cfSet env cf st sect key (renderNat n)).1 sect key = some (renderNat n) := by
+  have hv : applySetter env .uint (renderNat n) = some (.uint n) := by
+    simp [applySetter, setUint_render n h]
+  have := set_then_get env cf st hr hs hg hro hnr hd hv
+  simpa [applyGetter, asUint] using this
+
+example : cfGet exEnv (exCf false (some 7)) (cfSet exEnv (exCf false (some 7)) exSt [109, 97, 105, 110]
+    [114] (renderNat 4294967295)).1 [109, 97, 105, 110] [114] = some (renderNat 4294967295) := by
+  decide +kernel
+
+/-- **round trip, string** (also CF_FILE values that do not start with `~`) -/
+theorem set_get_roundtrip_str (env : Env) (cf : Cf δ) (st : Store δ) {sect key : Bytes} {s : Sect δ}
+    {k : Key} {i : Nat} (hr : Reaches cf sect key s k i) (hs : k.setter = some .str)
+    (hg : k.getter = some .str) (hro : k.readOnly = false) (hnr : (k.noReload && cf.loaded) = false)
+    {loc : Loc} (hd : getDest (sectBase cf s sect) k = some loc) (val : Bytes) :
+    (cfSet env cf st sect key val).2 = true ∧
+    cfGet env cf (cfSet env cf st sect key val).1 sect key = some val := by
+  have hv : applySetter env .str val = some (.str (some val)) := rfl
+  have := set_then_get env cf st hr hs hg hro hnr hd hv
+  simpa [applyGetter, asStr] using this
+
+example : cfGet exEnv (exCf true none) (cfSet exEnv (exCf true none) exSt [116, 119, 111] [115]
+    [104, 105, 32, 61]).1 [116, 119, 111] [115] = some [104, 105, 32, 61] := by decide +kernel
+
+/-- **round trip, filename**: no tilde = string; `~…` is `$HOME` / the passwd directory (the
+    environment is the parameter `env`) followed by the rest of the value -/
+theorem set_filename (env : Env) (v : Bytes) :
+    (v.head? ≠ some 126 → applySetter env .file v = some (.str (some v))) ∧
+    (∀ h rest, env.home = some h → applySetter env .file (126 :: 47 :: rest) = some (.str (some (h ++ 47 :: rest)))) := by
+  constructor
+  · intro hv
+    cases v with
+    | nil => rfl
+    | cons c t =>
+      have : c ≠ 126 := by simpa using hv
+      unfold applySetter
+      split
+      · rename_i heq; simp only [List.cons.injEq] at heq; exact absurd heq.1 this
+      · rfl
+  · intro h rest hh
+    simp [applySetter, expandTilde, hh]
+
+example : applySetter { exEnv with home := some [47, 104] } .file [126, 47, 120] = some (.str (some [47, 104, 47, 120])) := by
+  decide +kernel
+
+/-- **round trip, lookup**: every spelling (any letter case) of a listed name stores its value,
+    and the getter renders the name as listed (names distinct ignoring case, values distinct) -/
+theorem set_get_roundtrip_lookup (tbl : List (Bytes × Int))
+    (hp : tbl.Pairwise (fun a b => strcaseEq a.1 b.1 = false ∧ a.2 ≠ b.2))
+    (n : Bytes) (v : Int) (spelled : Bytes) (hm : (n, v) ∈ tbl) (hs : strcaseEq n spelled = true)
+    (env : Env) :
+    applySetter env (.lookup tbl) spelled = some (.int v) ∧
+    applyGetter env (.lookup tbl) (some (.int v)) = some n := by
+  have := lookup_roundtrip tbl hp n v spelled hm hs
+  simp [applySetter, applyGetter, asInt, this]
+
+example : applySetter exEnv (.lookup exLk) [84, 87, 79] = some (.int 2) ∧
+    applyGetter exEnv (.lookup exLk) (some (.int 2)) = some [116, 119, 111] := by decide +kernel
+
+/-- **round trip, time**: with `strtod`/`%g` as parameters — whenever the modelled libc reads the
+    text `s` as the double that `%g` prints as `s`, `cf_set_time_double` then `cf_get_time_double`
+    give `s` back; for `cf_set_time_usec` the stored count is `timeToUsec` of that double. -/
+theorem set_get_roundtrip_time (env : Env) (s : Bytes) (d : Dbl) (hs : parseTime env s = some d) :
+    applySetter env .timeDouble s = some (.dbl d) ∧
+    applyGetter env .timeDouble (some (.dbl d)) = some (env.fmtG d) ∧
+    applySetter env .timeUsec s = (timeToUsec d).map .usec := by
+  simp [applySetter, applyGetter, asDbl, hs]
+
+example : parseTime exEnv [50, 46, 53] = some (.fin false 5629499534213120 (-51)) := by decide +kernel
+
+/-- **round trip, time, concrete libc model** (`strtodC`, `fmtG`, IEEE round-to-nearest-even):
+    every microsecond count below 2000 — and every millisecond count below 2000 as a double —
+    is rendered by the getter to a text that the setter reads back as the same value
+    (get → set → get is stable; this is what the unrepaired truncation broke, see below).
+    Kernel-evaluated, hence finite. -/
+theorem set_get_roundtrip_time_partial :
+    (∀ u, u < 2000 →
+      (applyGetter exEnv .timeUsec (some (.usec u))).bind (applySetter exEnv .timeUsec) = some (.usec u)) ∧
+    (∀ k, k < 2000 →
+      (applyGetter exEnv .timeDouble (some (.dbl (dblOfRat false k 1000)))).bind
+        (applySetter exEnv .timeDouble) = some (.dbl (dblOfRat false k 1000))) := by
+  decide +kernel
+/- full statement (not proved: needs error analysis of binary64 rounding, not a finite check):
+   theorem set_get_roundtrip_time_full : ∀ u < 10^6 * 2^31, (u has at most 6 significant decimal
+     digits) → (applyGetter exEnv .timeUsec (some (.usec u))).bind (applySetter exEnv .timeUsec)
+     = some (.usec u)   -- and the analogue for doubles with ≤ 6 significant digits -/
+
+example : applyGetter exEnv .timeUsec (some (.usec 249)) = some [48, 46, 48, 48, 48, 50, 52, 57] := by
+  decide +kernel
+
+/-- **the defect repaired by F24.**  The unrepaired conversion `(usec_t)(USEC * v)` truncates:
+    the text "0.000249" — which is what the getter prints for 249 µs — was stored as 248 µs and
+    rendered back as "0.000248".  The repaired conversion stores 249. -/
+theorem time_usec_truncation_counterexample :
+    timeToUsecOld (strtodC [48, 46, 48, 48, 48, 50, 52, 57]).val = some 248 ∧
+    applyGetter exEnv .timeUsec (some (.usec 248)) = some [48, 46, 48, 48, 48, 50, 52, 56] ∧
+    timeToUsec (strtodC [48, 46, 48, 48, 48, 50, 52, 57]).val = some 249 := by
+  decide +kernel
+
+/-- **rejects empty input**: int, uint, time (whatever libc does) and lookup (no empty name) -/
+theorem rejects_empty (env : Env) (tbl : List (Bytes × Int)) (ht : ∀ p ∈ tbl, p.1 ≠ []) :
+    applySetter env .int [] = none ∧ applySetter env .uint [] = none ∧
+    applySetter env .timeUsec [] = none ∧ applySetter env .timeDouble [] = none ∧
+    applySetter env (.lookup tbl) [] = none := by
+  have hpt : parseTime env [] = none := by
+    unfold parseTime
+    by_cases h0 : (env.strtod []).consumed = 0 <;> simp [h0]
+  have hl : lookupSet tbl [] = none := by
+    induction tbl with
+    | nil => rfl
+    | cons p t ih =>
+      obtain ⟨n, v⟩ := p
+      have hn : n ≠ [] := ht (n, v) (by simp)
+      have : strcaseEq n [] = false := by
+        cases n with
+        | nil => exact absurd rfl hn
+        | cons c t' => simp [strcaseEq]
+      simp [lookupSet, this, ih (fun q hq => ht q (by simp [hq]))]
+  simp [applySetter, setInt_empty, setUint_empty, hpt, hl]
+
+example : applySetter exEnv (.lookup exLk) [] = none ∧ applySetter exEnv .timeUsec [] = none := by
+  decide +kernel
+
+/-- **rejects trailing garbage**: (a) whatever the int/uint/time setters accept was consumed by
+    the libc scanner up to its last byte; (b) a canonical int/uint followed by anything that
+    starts with a non-alphanumeric byte is rejected. -/
+theorem rejects_trailing_garbage (env : Env) :
+    (∀ s v, setInt s = some v → (strtoBase0 s).consumed = s.length) ∧
+    (∀ s v, setUint s = some v → (strtoBase0 s).consumed = s.length) ∧
+    (∀ s d, parseTime env s = some d → (env.strtod s).consumed = s.length) ∧
+    (∀ (v : Int) c g, digitVal c = none → setInt (renderInt v ++ c :: g) = none) ∧
+    (∀ (n : Nat) c g, digitVal c = none → setUint (renderNat n ++ c :: g) = none) := by
+  refine ⟨fun s v h => (setInt_consumes_all h).1, fun s v h => (setUint_consumes_all h).1, ?_,
+    fun v c g hc => setInt_garbage v c g hc, fun n c g hc => setUint_garbage n c g hc⟩
+  intro s d h
+  unfold parseTime at h
+  by_cases he : (env.strtod s).erange = true
+  · simp [he] at h
+  · by_cases hc : (env.strtod s).consumed = s.length
+    · exact hc
+    · simp [he, hc] at h
+
+example : setInt [53, 32] = none ∧ setInt [32, 53] = some 5 ∧ setInt [49, 50, 97] = none ∧
+    applySetter exEnv .timeUsec [49, 46, 53, 115] = none := by decide +kernel
+
+/-! ## flags, defaults, bases, failures -/
+
+/-- **CF_READONLY**: `cf_set` on a read-only key succeeds and changes nothing -/
+theorem readonly_ignored (env : Env) (cf : Cf δ) (st : Store δ) {sect key : Bytes} {s : Sect δ}
+    {k : Key} {i : Nat} (hr : Reaches cf sect key s k i) (hro : k.readOnly = true) (val : Bytes) :
+    cfSet env cf st sect key val = (st, true) := readonly_ignored' env cf st hr hro val
+
+example : (cfSet exEnv (exCf false none) exSt [109, 97, 105, 110] [114, 111] [55]).2 = true ∧
+    cfGet exEnv (exCf false none) (cfSet exEnv (exCf false none) exSt [109, 97, 105, 110] [114, 111]
+      [55]).1 [109, 97, 105, 110] [114, 111] = some [48] := by decide +kernel
+
+/-- **CF_NO_RELOAD**: once `CfContext.loaded` is set, `cf_set` on such a key succeeds and changes
+    nothing; before that it stores like any other key (`set_get_roundtrip_*` with
+    `k.noReload && cf.loaded = false`) -/
+theorem no_reload_ignored_when_loaded (env : Env) (cf : Cf δ) (st : Store δ) {sect key : Bytes}
+    {s : Sect δ} {k : Key} {i : Nat} (hr : Reaches cf sect key s k i) (hnr : k.noReload = true)
+    (hl : cf.loaded = true) (val : Bytes) :
+    cfSet env cf st sect key val = (st, true) := no_reload_ignored' env cf st hr hnr hl val
+
+example :
+    cfGet exEnv (exCf true none) (cfSet exEnv (exCf true none) exSt [109, 97, 105, 110] [110, 114]
+      [55]).1 [109, 97, 105, 110] [110, 114] = some [48] ∧
+    cfGet exEnv (exCf false none) (cfSet exEnv (exCf false none) exSt [109, 97, 105, 110] [110, 114]
+      [55]).1 [109, 97, 105, 110] [110, 114] = some [55] := by decide +kernel
+
+/-- **defaults at section start**: the handler's reaction to a `[section]` event of a static
+    section is, right then, `cf_set(section, key, default)` for every key with a default in key
+    order (`setDefaults`: skipping read-only keys and no-reload keys after load), before any
+    later `key = value` of the file is seen; a failing default fails the load. -/
+theorem defaults_applied_at_section_start (env : Env) (cf : Cf δ) (ld : Loader δ) (name : Bytes)
+    {s : Sect δ} {i : Nat} (h : findSect cf name = some (i, s)) (hss : s.sectionStart = none)
+    (hst : s.setKey = none) :
+    loadHandler env cf ld (.sect name) =
+      ({ store := (setDefaults env cf name s.keys ld.store).1, curSect := some name,
+         gotMain := ld.gotMain || i == 0 },
+       (setDefaults env cf name s.keys ld.store).2) ∧
+    (∀ (k : Key) (t : List Key) (d : Bytes) (st : Store δ), k.dflt = some d → k.readOnly = false →
+      (k.noReload && cf.loaded) = false →
+      setDefaults env cf name (k :: t) st =
+        if (cfSet env cf st name k.name d).2 then setDefaults env cf name t (cfSet env cf st name k.name d).1
+        else ((cfSet env cf st name k.name d).1.note .fillDefaults, false)) := by
+  refine ⟨loadHandler_sect env cf ld name h hss hst, ?_⟩
+  intro k t d st hd hro hnr
+  simp only [setDefaults, hd, hro, hnr, Bool.false_eq_true, if_false]
+  rcases cfSet env cf st name k.name d with ⟨st', _ | _⟩ <;> rfl
+
+/-- "[main]\ni=9\n[main]\n": the second `[main]` puts the default 5 back -/
+example :
+    let fs : Bytes → Option Bytes := fun _ => some [91, 109, 97, 105, 110, 93, 10, 105, 61, 57, 10, 91,
+      109, 97, 105, 110, 93, 10]
+    let r := cfLoadFile exEnv (exCf false none) fs exSt [102]
+    r.2 = true ∧ cfGet exEnv (exCf false none) r.1 [109, 97, 105, 110] [105] = some [53] := by
+  decide +kernel
+
+/-- **relative keys**: the destination of a relative key is its offset in the object that is the
+    section's base — `cf->base`, or what `base_lookup(cf->base, section)` returns; with a NULL
+    base `cf_set` fails and `cf_get` is NULL; an absolute key ignores the base. -/
+theorem relative_key_base (cf : Cf δ) (s : Sect δ) (sect : Bytes) (k : Key) :
+    sectBase cf s sect = (match s.baseLookup with | none => cf.base | some f => f cf.base sect) ∧
+    getDest (sectBase cf s sect) k =
+      (if k.rel then (sectBase cf s sect).map (fun b => Loc.rel b k.ofs) else some (Loc.abs k.ofs)) ∧
+    (∀ env st i key ty val, Reaches cf sect key s k i → k.setter = some ty → k.readOnly = false →
+      (k.noReload && cf.loaded) = false → k.rel = true → sectBase cf s sect = none →
+      cfSet env cf st sect key val = (st.note .noBase, false)) := by
+  refine ⟨by unfold sectBase; cases s.baseLookup <;> rfl, rfl, ?_⟩
+  intro env st i key ty val hr hty hro hnr hrel hb
+  exact no_base env cf st hr hty hro hnr hrel hb val
+
+example :
+    (cfSet exEnv (exCf false none) exSt [109, 97, 105, 110] [114] [55]).2 = false ∧
+    (cfSet exEnv (exCf false (some 3)) exSt [109, 97, 105, 110] [114] [55]).1.read (.rel 3 4)
+      = some (.uint 7) := by decide +kernel
+
+/-- **main section missing**: if no file that can be reached names the first section of the
+    schema, `cf_load_file` returns false -/
+theorem missing_main_section_fails (env : Env) (cf : Cf δ) (fs : Bytes → Option Bytes) (st : Store δ)
+    (name : Bytes) (hfs : NoMainFs cf fs) : (cfLoadFile env cf fs st name).2 = false :=
+  load_without_main_fails env cf fs st name hfs
+
+/-- "[two]\ns=x\n" parses and sets, but there is no `[main]` -/
+example :
+    let fs : Bytes → Option Bytes := fun _ => some [91, 116, 119, 111, 93, 10, 115, 61, 120, 10]
+    let r := cfLoadFile exEnv (exCf false none) fs exSt [102]
+    r.2 = false ∧ r.1.log = some .mainMissing := by decide +kernel
+
+/-- **unknown key or section**: `cf_set` fails and `cf_get` is NULL for a section that is not in
+    the schema and for a key that is not in a static section; the load handler refuses a
+    `[section]` that is not in the schema, a key/value before any section, and whatever `cf_set`
+    refuses — and a refused event ends `parse_ini_file` with an error. -/
+theorem unknown_key_or_section_fails (env : Env) (cf : Cf δ) (st : Store δ) (sect key val : Bytes) :
+    (findSect cf sect = none →
+      (cfSet env cf st sect key val).2 = false ∧ cfGet env cf st sect key = none) ∧
+    (∀ i s, findSect cf sect = some (i, s) → s.setKey = none → findKey s.keys key = none →
+      (cfSet env cf st sect key val).2 = false ∧ cfGet env cf st sect key = none) ∧
+    (∀ ld : Loader δ, findSect cf sect = none → (loadHandler env cf ld (.sect sect)).2 = false) ∧
+    (∀ ld : Loader δ, ld.curSect = none → (loadHandler env cf ld (.kv key val)).2 = false) ∧
+    (∀ ld : Loader δ, ld.curSect = some sect →
+      (loadHandler env cf ld (.kv key val)).2 = (cfSet env cf ld.store sect key val).2) ∧
+    (∀ (incl : Bytes → σ → σ × Option Err) (h : σ → Event → σ × Bool) level rest (s0 : σ),
+      (h s0 (.kv key val)).2 = false →
+      (runItems incl h level (.kv key val :: rest) s0).2.1 = some .badVal) := by
+  refine ⟨fun h => ?_, fun i s h hst hk => ?_, fun ld h => loadHandler_unknown_sect env cf ld sect h,
+    fun ld h => ?_, fun ld h => ?_, ?_⟩
+  · have := unknown_sect env cf st h key val
+    rw [this.1]; exact ⟨rfl, this.2⟩
+  · have := unknown_key env cf st h hst hk val
+    rw [this.1]; exact ⟨rfl, this.2⟩
+  · rw [loadHandler_kv, h]
+  · rw [loadHandler_kv, h]
+  · intro incl h level rest s0 hh
+    simp only [runItems]
+    rcases hx : h s0 (Event.kv key val) with ⟨s1, _ | _⟩
+    · rfl
+    · rw [hx] at hh; cases hh
+
+/-- "[main]\nzz=1\n" and "[nosuch]\n" do not load -/
+example :
+    (cfLoadFile exEnv (exCf false none) (fun _ => some [91, 109, 97, 105, 110, 93, 10, 122, 122, 61, 49, 10])
+      exSt [102]).2 = false ∧
+    (cfLoadFile exEnv (exCf false none) (fun _ => some [91, 110, 111, 115, 117, 99, 104, 93, 10])
+      exSt [102]).1.log = some .unknownSect := by decide +kernel
+
+end UsualProps.C18
